@@ -3,62 +3,6 @@
 //@ include prelude/ipld.rs
 verus! {
 
-// ---------------- spec ----------------
-pub open spec fn bal(m: Map<Address, TokenAmount>, k: Address) -> int {
-    if m.dom().contains(k) { m[k]@ } else { 0 }
-}
-/// representation invariant of a balance table: no negative entry
-pub open spec fn bt_wf(m: Map<Address, TokenAmount>) -> bool {
-    forall|k: Address| m.dom().contains(k) ==> #[trigger] m[k]@ >= 0
-}
-/// `m2` equals `m1` except that the balance of `key` is `v` (whole-view frame)
-pub open spec fn bal_updated(m1: Map<Address, TokenAmount>, m2: Map<Address, TokenAmount>, key: Address, v: int) -> bool {
-    forall|k: Address| bal(m2, k) == (if k == key { v } else { bal(m1, k) })
-}
-
-// ---------------- extracted from /repo ----------------
-//@ item actors/market/src/balance_table.rs BalanceTable
-
-//@ fn actors/market/src/balance_table.rs BalanceTable::get
-    ensures
-        r.is_ok() ==> r->Ok_0@ == bal(self.0.view(), *key),
-//@ end
-
-//@ fn actors/market/src/balance_table.rs BalanceTable::add
-    requires
-        bt_wf(old(self).0.view()),
-    ensures
-        bt_wf(final(self).0.view()),
-        r.is_ok() ==> bal(old(self).0.view(), *key) + value@ >= 0
-            && bal_updated(old(self).0.view(), final(self).0.view(), *key, bal(old(self).0.view(), *key) + value@),
-        r.is_err() ==> final(self).0.view() == old(self).0.view(),
-//@ end
-
-//@ fn actors/market/src/balance_table.rs BalanceTable::subtract_with_minimum
-    requires
-        bt_wf(old(self).0.view()),
-    ensures
-        bt_wf(final(self).0.view()),
-        r.is_ok() ==> ({
-            let prev = bal(old(self).0.view(), *key);
-            let avail = if prev - floor@ > 0 { prev - floor@ } else { 0 };
-            let sub = if avail <= req@ { avail } else { req@ };
-            &&& r->Ok_0@ == sub
-            &&& (sub > 0 ==> bal_updated(old(self).0.view(), final(self).0.view(), *key, prev - sub))
-            &&& (sub <= 0 ==> final(self).0.view() == old(self).0.view())
-        }),
-        r.is_err() ==> final(self).0.view() == old(self).0.view(),
-//@ end
-
-//@ fn actors/market/src/balance_table.rs BalanceTable::must_subtract
-    requires
-        bt_wf(old(self).0.view()),
-    ensures
-        bt_wf(final(self).0.view()),
-        r.is_ok() ==> req@ <= bal(old(self).0.view(), *key)
-            && bal_updated(old(self).0.view(), final(self).0.view(), *key, bal(old(self).0.view(), *key) - req@),
-        r.is_err() ==> final(self).0.view() == old(self).0.view(),
-//@ end
-
+//@ include units/shared/balance_table.inc
 } // verus!
 fn main() {}
